@@ -3,7 +3,7 @@ from __future__ import annotations
 
 from htmltools import HTML, HTMLDependency, HTMLDocument, Tag, TagList
 
-from engine.api import conc, concrete, harness
+from engine.api import conc, concrete, harness, pick
 from oracles.util import TF
 
 N_KIND = 15
@@ -173,3 +173,25 @@ def _unexp_body(p: int, kind: int) -> bool:
 def h_unexpanded(p: int, kind: int) -> bool:
     """asking for markup from a tree that still contains an un-expanded object raises instead of emitting anything for it"""
     return concrete(_unexp_body, conc(p, 0, N_PLACE - 1), conc(kind, 0, 2))
+
+
+@harness("C09", pre=lambda B, k, w, t: 0 <= k <= 4 and 0 <= w <= 2 and len(t) <= B["L"], bounds={"quick": {"L": 2}, "thorough": {"L": 3}},
+         shard={"k": range(5), "w": range(3)},
+         sym=["t: text inside the expansion, str over all code points, len <= L"],
+         sel=["k: expansion kind (str, HTML(), TagList of text+tag, Tag, empty TagList next to the text)", "w: wrapper (block tag, list, inline in block)"],
+         targets=["htmltools._core.TagList.tagify", "htmltools._core.Tag.render"], timeout={"quick": 300, "thorough": 1500})
+def h_splice_sym(k: int, w: int, t: str) -> bool:
+    """the same equivalence with arbitrary text in the expansion"""
+    if k == 0:
+        obj, exp = TF(t), [t]
+    elif k == 1:
+        obj, exp = TF(HTML(t)), [HTML(t)]
+    elif k == 2:
+        obj, exp = TF(TagList(t, Tag("b", t, _add_ws=False))), [t, Tag("b", t, _add_ws=False)]
+    elif k == 3:
+        obj, exp = TF(Tag("p", t)), [Tag("p", t)]
+    else:
+        obj, exp = TF(TagList()), []
+    a = wrap(w, ["lead<", obj, t]).render()["html"]
+    b = wrap(w, ["lead<", *exp, t]).render()["html"]
+    return a == b
